@@ -62,6 +62,20 @@ class SignalStageHandler(StabilizeHandler[SignalStage]):
         """Inner handle logic to be retried."""
 
         def on_stage(stage: StageExecution) -> None:
+            # Re-checked on every optimistic-lock retry: when this delivery's
+            # lock lapsed while the worker was stalled, another worker may have
+            # applied this very signal in the meantime (that is what bumped the
+            # stage version). Applying it again would buffer / deliver one
+            # signal twice.
+            if message.message_id and self.repository.is_message_processed(message.message_id):
+                logger.info(
+                    "Signal '%s' for stage %s was already applied by another delivery of message %s",
+                    message.signal_name,
+                    stage.name,
+                    message.message_id,
+                )
+                return
+
             if stage.status == WorkflowStatus.SUSPENDED:
                 # Stage is waiting for a signal - deliver it
                 logger.info(
